@@ -179,7 +179,7 @@ def build_driver():
     """(Re-)extract the model and compile the OCaml driver when any input is newer."""
     os.makedirs(OCAML, exist_ok=True)
     drv = os.path.join(OCAML, "driver")
-    rc, out = sh("timeout 1500 make -j16 Model/X86Unw.vo Model/A64Unw.vo Model/Policy.vo", cwd=COQ, timeout=1600)
+    rc, out = sh("timeout 1500 make -j16 Model/X86Unw.vo Model/A64Unw.vo Model/Policy.vo Model/Macho.vo", cwd=COQ, timeout=1600)
     if rc != 0:
         return False, drv, out
     inputs = glob.glob(os.path.join(COQ, "Model", "*.vo")) + glob.glob(os.path.join(COQ, "Generated", "*.vo")) + \
